@@ -324,6 +324,52 @@ def r3_cache(chk: Check):
                         "depends on the path and must not be reused", loc)
     chk.min_instances(nret, 1, "cache-hit return in HashComputer.compute")
 
+    # (ii-b) identifiers(): the cache is *read* only when sealed and filled -- decision table over (cached raw, cached full, sealed, only_raw)
+    import itertools
+    from ..dataflow import walk_table
+
+    fi = tree.func("core.objects", "ConfigInformation.identifiers")
+    gi = CFG(fi.node)
+    rdi = ReachingDefs(gi)
+
+    def classify(n):
+        t = rdi.canon(n.ast, n)
+        return {"self._raw_identifier is None": ("rnone", True), "self._full_identifier is None": ("fnone", True), "self._sealed": ("sealed", True), "only_raw": ("only_raw", True),
+                "self.init_tasks": ("init", True)}.get(t)
+
+    def events(n):
+        out = []
+        for c in n.calls():
+            d = dotted(c.func) or ""
+            if d == "HashComputer.compute":
+                out.append("compute")
+            if d.endswith("sha256"):
+                out.append("combine")
+        if n.kind == "stmt" and isinstance(n.ast, ast.Return):
+            out.append("return " + rdi.canon(n.ast.value, n)) if n.ast.value is not None else out.append("return None")
+        return out
+
+    bad = []
+    nsc = 0
+    for rnone, fnone, sealed, only_raw in itertools.product([True, False], repeat=4):
+        outs = walk_table(gi, gi.entry, classify, {"rnone": rnone, "fnone": fnone, "sealed": sealed, "only_raw": only_raw, "init": None}, events,
+                          lambda n: "exit" if n is gi.exit else ("raise" if n is gi.raise_ else None))
+        for o in outs:
+            nsc += 1
+            unk = [u[0] for u in o.unknown if u[2] is None and "init_tasks" not in u[0] and not u[0].startswith("for ")]
+            # `not sealed => recompute` is implied by the cache invariant (stores only under _sealed: (i); unsealing resets: C14.R4), so a cache
+            # hit on a filled cache is accepted whatever the flag; a miss must always compute
+            must_compute = rnone
+            must_combine = (not only_raw) and fnone
+            got_c, got_f = "compute" in o.events, "combine" in o.events
+            if (must_compute and not got_c) or (must_combine and not got_f) or o.end != "exit" or unk:
+                bad.append(f"cached raw={'no' if rnone else 'yes'}, cached full={'no' if fnone else 'yes'}, sealed={sealed}, only_raw={only_raw}: "
+                           f"{'recomputes' if got_c else 'reuses raw'}, {'combines' if got_f else 'no full'}{' depending on ' + str(unk) if unk else ''}")
+    chk.count("identifiers_scenarios", nsc)
+    chk.require(not bad, chk.fkey(fi, "cache read only when sealed and filled"),
+                f"identifiers() must compute the raw identifier whenever none is cached, and the full one likewise (unless only the raw one is asked), whatever the sealed flag; found {bad[:3]}: "
+                "an unsealed (mutable) configuration would otherwise answer with a stale identifier, or a missing one", chk.loc(fi.module, fi.node))
+
     # (iii) attributes stored on Identifier objects exist in the class; the guard's flag has a real writer
     nst = 0
     for fq in [("core.objects", "HashComputer.compute"), ("core.objects", "ConfigInformation.identifiers"),
